@@ -32,6 +32,7 @@ def string_to_float(array: np.array, state: dict) -> np.ndarray:
 
 
 @Float.register_relationship(Complex, np.ndarray)
+@array_handle_nulls
 def complex_is_float(array: np.array, state: dict) -> bool:
     return all(np.imag(array) == 0)
 
